@@ -25,7 +25,7 @@ SHARD_TIMEOUT = {"quick": 900, "thorough": 5400}
 def floors(tier):
     q = tier == "quick"
     return {"evaluations": 250 if q else 4000, "distinct_nontrivial": 80 if q else 1500, "rotations": 1500 if q else 25000,
-            "kind:corpus": 10 if q else 80, "kind:synth": 120 if q else 2000, "kind:stl": 60 if q else 1000, "kind:curated": 40 if q else 600,
+            "kind:corpus": 10 if q else 80, "kind:synth": 120 if q else 1200, "kind:stl": 60 if q else 700, "kind:curated": 40 if q else 600,
             "kernels_with_cycles": 150 if q else 2500, "kind:long": 3 if q else 30}
 
 
